@@ -625,7 +625,7 @@ def clause9_matcher_count(ctx, P):
                     filled = True
                 elif i.id in cs and filled and not late:
                     late.append((f, i))
-    # the same for the operands of one matcher: free_path_elements() walks path_elements[0 .. number_of_path_elements)
+    # the same for the operands of one matcher: the release helper walks path_elements[0 .. number_of_path_elements)
     PM = "struct.path_matcher"
     pfill, pcount = [], []
     for f in P.own_functions():
@@ -651,10 +651,10 @@ def clause9_matcher_count(ctx, P):
                     seen_fill = True
                 elif j.id == i.id and seen_fill:
                     plate.append((f, i))
-    ctx.ob("C16.5 R-ORDER", P.fn("fetch.c:free_path_elements"), "operand-count-stands-before-operands-are-copied",
+    ctx.ob("C16.5 R-ORDER", pcount[0][0] if pcount else P.fn("fetch.c:create_matcher"), "operand-count-stands-before-operands-are-copied",
            bool(pcount) and not plate and len(pfill) >= 1,
            ("%s() writes number_of_path_elements at %s only after the operands have been copied: when a later operand is refused (wrong "
-            "type, allocation failure) free_path_elements() walks 0 elements and the copies already made are lost for good" %
+            "type, allocation failure) the release walks 0 elements and the copies already made are lost for good" %
             (plate[0][0].srcname, plate[0][1].loc)) if plate else "operand count stored before the operands are copied")
     # a matcher that is accepted is recorded: every successful path of create_matcher() stores into the fetch's matcher slot
     cm = P.fn("fetch.c:create_matcher")
